@@ -301,7 +301,7 @@ m = {
               'serves_properties': [c['property_id'] for c in checks],
               'kind_free_text': 'Coq 8.16.1 development (Model/Proofs/Props), extracted to OCaml, differential harness in Python against /repo/src'}],
  'checks': checks,
- 'notes': 'fix: commits in /repo: 96b10f0 (F11), df833cb (F1), 2b803dd (F2 family), ce0265d (F3), e33b45d (F8), 90f7980 (F17), 70038ee (F9 F9c F9d), 05db7b2 (F7), 9a355c6 (F19c04), 0bb86f4 (F23 F24 F25), 5f4b2f5 (F27), 8a57862 (F29), ecb653f (F30), 9eca1ef (F31). Known findings: /verif/known_findings.json.',
+ 'notes': 'fix: commits in /repo: 96b10f0 (F11), df833cb (F1), 2b803dd (F2 family), ce0265d (F3), e33b45d (F8), 90f7980 (F17), 70038ee (F9 F9c F9d), 05db7b2 (F7), 9a355c6 (F19c04), 0bb86f4 (F23 F24 F25), 5f4b2f5 (F27), 8a57862 (F29), ecb653f (F30), 9eca1ef (F31), 0bfa522 (F35). Known findings: /verif/known_findings.json.',
  'not_applicable': na,
 }
 (ROOT / 'MANIFEST.json').write_text(json.dumps(m, indent=1) + '\n')
